@@ -396,7 +396,8 @@ def check_hillshade(prog, rep):
     paths = [p for p in backend_paths(prog, pub) if p.backend == 'numpy']
     if not paths or paths[0].func() is None:
         raise AnalysisIncomplete('hillshade numpy path not found')
-    f = paths[0].func()
+    from ..inline import inline_view
+    f = inline_view(prog, paths[0].func())     # small glue helpers (border fill, ...) read as if written in place
     entry = 'hillshade[numpy]'
     # vectorised model: np.gradient footprint; afterwards elementwise only; borders set NaN
     grads = []
